@@ -1,5 +1,5 @@
 /*@unit {
- 'kind': 'proof', 'mode': 'legacy',
+ 'kind': 'proof', 'mode': 'legacy', 'tier': 'thorough',
  'bound': 'number of scatter-gather pieces <= 2 (outer loop unwound 3 times with an unwinding assertion; pieces may be empty, overlap or repeat); unbounded in payload length and content - the byte loop is closed by its invariant',
  'functions': ['gstuffing_v', 'gstuff_byte', 'igris_strmcrc8'],
  'extract': 'units/C04/gstuff_extract.py',
